@@ -22,6 +22,7 @@ SHARDS = {"quick": 8, "thorough": 16}
 SHARD_TIMEOUT = {"quick": 170, "thorough": 1500}
 N_CASES = {"quick": 560, "thorough": 9600}
 N_DRAWS = {"quick": 8, "thorough": 25}
+N_COLD = {"quick": 10, "thorough": 80}
 
 
 def new_run():
@@ -47,36 +48,30 @@ def new_run():
 # drawing
 # --------------------------------------------------------------------------
 class CaseTimeLimit(BaseException):
-    """raised by SIGALRM inside a hypothesis run that takes too long (rejection
-    sampling through fallback filters can take minutes); the case is then
-    counted as not decided"""
+    """raised (synchronously, at the start of an example attempt) when the
+    hypothesis run of one case takes too long: rejection sampling through
+    fallback filters can take minutes. The case is then counted as not
+    decided (for whatever was not drawn yet)."""
 
 
-TIME_LIMIT = {"quick": 4.0, "thorough": 10.0}
+TIME_LIMIT = {"quick": 3.0, "thorough": 8.0}
 
 
-class time_limit:
-    def __init__(self, seconds):
-        self.seconds = seconds
+def guarded(strategy, seconds):
+    """the same strategy, but every example attempt first looks at the clock"""
+    import time
+    import hypothesis.strategies as st
+    if not seconds:
+        return strategy
+    deadline = time.monotonic() + seconds
 
-    def __enter__(self):
-        import signal
-        import threading
-        self.active = (self.seconds and hasattr(signal, "setitimer")
-                       and threading.current_thread() is threading.main_thread())
-        if self.active:
-            def _raise(signum, frame):
-                raise CaseTimeLimit(f"case exceeded {self.seconds}s")
-            self.old = signal.signal(signal.SIGALRM, _raise)
-            signal.setitimer(signal.ITIMER_REAL, self.seconds)
-        return self
+    @st.composite
+    def _guard(draw):
+        if time.monotonic() > deadline:
+            raise CaseTimeLimit(f"case exceeded {seconds}s")
+        return draw(strategy)
 
-    def __exit__(self, *exc):
-        import signal
-        if self.active:
-            signal.setitimer(signal.ITIMER_REAL, 0)
-            signal.signal(signal.SIGALRM, self.old)
-        return False
+    return _guard()
 
 
 def prewarm():
@@ -98,7 +93,7 @@ def _settings(n):
         verbosity=hypothesis.Verbosity.quiet)
 
 
-def draw_strategy(schema, case, hseed, n):
+def draw_strategy(schema, case, hseed, n, limit=None):
     """-> (list of draws, exception or None)"""
     import hypothesis
     out = []
@@ -106,7 +101,7 @@ def draw_strategy(schema, case, hseed, n):
         kw = {"size": case["size"]}
         if case["kind"] == "frame" and case.get("n_regex", 1) != 1:
             kw["n_regex_columns"] = case["n_regex"]
-        strat = schema.strategy(**kw)
+        strat = guarded(schema.strategy(**kw), limit)
 
         @hypothesis.seed(hseed)
         @_settings(n)
@@ -330,6 +325,8 @@ def classify(case, fl, d):
         if isinstance(d, pd.Series) and isinstance(d.index, pd.RangeIndex):
             return "series_strategy-ignores-index-component"
         return None
+    if where == "frame" and reason == "DUPLICATES" and _joint_unique_null_duplicates(case, d):
+        return "null-mask-after-unique-emits-duplicate-nulls"
     if f is None:
         if (where == "frame" and reason == "WRONG_DATATYPE" and case.get("df_dtype")):
             col = fl.get("column")
@@ -363,6 +360,19 @@ def classify(case, fl, d):
     vals = [_pyval(v, cls) for v in (fl["values"] or [])]
     if not vals:
         return None
+
+    # Index.strategy / MultiIndex.strategy do not register the backends, so in
+    # a fresh interpreter STRATEGY_DISPATCHER is empty and builtin checks are
+    # skipped as "vectorised checks without strategy"
+    if (case.get("cold_dispatcher_empty") and kind in ("index", "multiindex")
+            and k in HAS_STRATEGY and k != "c_strat"):
+        return "index_strategy-builtin-check-strategies-not-registered-yet"
+
+    # NaN in a numpy int column -> float64: integers beyond 2**53 are rounded
+    if (cls == "int" and f["nullable"] and f["dtype"][0].islower() and data is not None
+            and str(data.dtype) == "float64" and int(data.isna().sum()) >= 1
+            and all(isinstance(v, (int, float)) and abs(v) > 2 ** 53 for v in vals)):
+        return "null-mask-upcasts-numpy-int-or-bool"
 
     # frame-level checks switch hypothesis to rows=...; column element
     # strategies (hence column-level checks) are then dropped
@@ -412,6 +422,31 @@ def classify(case, fl, d):
     if cls in ("dt", "td"):
         if all(_trunc_ok(chk, v) for v in vals):
             return "time-values-truncated-to-microseconds"
+    return None
+
+
+def _joint_unique_null_duplicates(case, d):
+    """frame-level unique=[...]: the duplicated rows all carry a null that the
+    null mask put there after uniqueness had been established"""
+    cols = case.get("df_unique")
+    try:
+        if not cols or not any(f["nullable"] for f in case["fields"] if f["name"] in cols):
+            return False
+        sub = d[cols]
+        dup = sub[sub.duplicated(keep=False)]
+        return len(dup) >= 2 and bool(dup.isna().any(axis=1).all())
+    except Exception:                   # noqa: BLE001
+        return False
+
+
+def classify_exc(case, exc, d):
+    """validate() raised something that is not a SchemaError(s) on its own draw"""
+    if (case["kind"] == "frame" and isinstance(exc, ValueError)
+            and "duplicate values are not supported in stack" in str(exc)
+            and _joint_unique_null_duplicates(case, d)):
+        # reporting the DUPLICATES error trips over the (also null-masked,
+        # hence duplicated) index labels
+        return "null-mask-after-unique-emits-duplicate-nulls"
     return None
 
 
@@ -514,127 +549,156 @@ def count_case_classes(run, case, prefix):
         run.count(f"{prefix}df_dtype")
 
 
-def one_case(run, case, hseed, n, verbose=False, limit=None):
-    import pandas as pd
-    key = canon_hash([{k: v for k, v in case.items()}, "C13"])
+def one_case(run, case, hseed, n, verbose=False, limit=None, cold=False):
+    key = canon_hash([case, "C13", cold])
     fam = case["family"]
+    P = "cold:" if cold else ""
     try:
         schema = G.build(case)
     except Exception as e:              # noqa: BLE001
         run.count(f"build_error:{type(e).__name__}")
         run.case(key, False)
         return
+    if cold:
+        from pandera.strategies.base_strategies import STRATEGY_DISPATCHER
+        case = dict(case, cold_dispatcher_empty=len(STRATEGY_DISPATCHER) == 0)
+        run.count(f"cold:dispatcher_empty_before_strategy={case['cold_dispatcher_empty']}")
     with warnings.catch_warnings():
         warnings.simplefilter("ignore")
-        try:
-            with time_limit(limit):
-                if case["mode"] == "example":
-                    draws, exc = draw_example(schema, case, hseed, max(1, n // 4))
-                else:
-                    draws, exc = draw_strategy(schema, case, hseed, n)
-        except CaseTimeLimit as e:      # fired between the inner handlers
-            draws, exc = [], e
-    brief = {"case": case, "hseed": hseed, "n": n}
-    count_case_classes(run, case, "gen:")
+        if case["mode"] == "example":
+            draws, exc = draw_example(schema, case, hseed, max(1, n // 4))
+        else:
+            draws, exc = draw_strategy(schema, case, hseed, n, limit)
+    brief = {"case": case, "hseed": hseed, "n": n, "cold": cold}
+    count_case_classes(run, case, P + "gen:")
     sample = {"family": fam, "kind": case["kind"], "size": case["size"],
-              "api": case["mode"], "draws": len(draws),
+              "api": case["mode"], "draws": len(draws), "fresh_interpreter": cold,
               "strategy_exception": type(exc).__name__ if exc else None,
               "fields": [{"dtype": f["dtype"], "chain": f["checks"], "witness": f["witness"],
                           "nullable": f["nullable"], "unique": f["unique"]}
                          for f in all_fields(case)],
               "first_draw": show(draws[0]) if draws else None}
+    timed_out = isinstance(exc, CaseTimeLimit)
 
     if fam != "sat":
         # the schema has no model of the requested size: only a report is admissible
-        run.case(key, True, sample=sample if run.evaluations % 7 == 3 else None)
         pat = next((f.get("pattern") for f in case["fields"] if f.get("pattern")), "?")
         run.count(f"unsat:pattern:{pat}")
-        if exc is not None and not draws:
-            run.count("unsat:reported")
-            run.count(f"unsat:reported_as:{type(exc).__name__}")
+        if not draws:
+            run.case(key, not timed_out, sample=sample if run.evaluations % 7 == 3 else None)
+            if timed_out or exc is None:
+                run.count("undecided:unsat_case_without_report_or_data")
+            else:
+                run.count("unsat:reported")
+                run.count(f"unsat:reported_as:{type(exc).__name__}")
             return
-        for d in draws:
-            with warnings.catch_warnings():
-                warnings.simplefilter("ignore")
-                verdict, info = validate_draw(schema, case, d)
-            if verdict == "ok":
-                run.count("unsat:GENERATOR-BUG:accepted_draw")
-                run.note_inconclusive(
-                    f"contradictory schema accepted a draw (generator bug): {json.dumps(case, default=repr)[:300]}")
-                return
-            run.count("unsat:data_emitted")
-            mechs = sorted({classify(case, fl, d) or "" for fl in (info if verdict == "rejected" else [])})
-            mech = mechs[0] if len(mechs) == 1 and mechs[0] else None
-            run.violation("unsatisfiable-schema-emitted-data",
-                          dict(brief, draw=show(d), verdict=verdict,
-                               failures=info if verdict == "rejected" else repr(info)),
-                          mech)
-            if verbose:
-                print("UNSAT-DATA", pat, show(d), info)
-            break
+        run.case(key, True, sample=sample)
+        d = draws[0]
+        with warnings.catch_warnings():
+            warnings.simplefilter("ignore")
+            verdict, info = validate_draw(schema, case, d)
+        if verdict == "ok":
+            run.count("unsat:GENERATOR-BUG:accepted_draw")
+            run.note_inconclusive("contradictory schema accepted a draw (generator bug): "
+                                  + json.dumps(case, default=repr)[:300])
+            return
+        run.count("unsat:data_emitted")
+        report(run, "unsatisfiable-schema-emitted-data", case, brief, d, verdict, info, verbose)
         return
 
     # ---- satisfiable family ---------------------------------------------
     if exc is not None:
-        run.count("undecided:strategy_raised")
-        run.count(f"undecided:strategy_raised:{type(exc).__name__}")
-        run.count("undecided:raised_msg:" + _norm_msg(exc))
-    run.case(key, bool(draws), sample=sample if run.evaluations % 9 == 2 else None)
+        run.count(P + "undecided:strategy_raised")
+        run.count(P + f"undecided:strategy_raised:{type(exc).__name__}")
+        run.count(P + "undecided:raised_msg:" + _norm_msg(exc))
+    run.case(key, bool(draws), sample=sample if (cold or run.evaluations % 9 == 2) else None)
     if not draws:
-        run.count("undecided:no_draw")
+        run.count(P + "undecided:no_draw")
         return
-    count_case_classes(run, case, "judged:")
-    run.count("cases_with_draws")
+    count_case_classes(run, case, P + "judged:")
+    run.count(P + "cases_with_draws")
     bad_case = False
     for d in draws:
-        run.count("draws_judged")
+        run.count(P + "draws_judged")
         if type(d).__name__ != EXPECTED_TYPE[case["kind"]]:
             run.count(f"observed:container_type:{type(d).__name__}_for_{case['kind']}")
         if case["size"] is not None and len(d) != case["size"]:
             run.count("observed:size_differs_from_request(not judged)")
         else:
-            run.count(f"draw_size:{len(d) if len(d) < 6 else '6+'}")
+            run.count(f"{P}draw_size:{len(d) if len(d) < 6 else '6+'}")
         with warnings.catch_warnings():
             warnings.simplefilter("ignore")
             verdict, info = validate_draw(schema, case, d)
         if verdict == "ok":
-            run.count("draw_accepted")
+            run.count(P + "draw_accepted")
             continue
         bad_case = True
-        if verdict == "exc":
-            run.violation("validate-raised-on-own-draw",
-                          dict(brief, draw=show(d), exc=repr(info)[:400]), None)
-            if verbose:
-                print("EXC", repr(info)[:300])
-            continue
-        run.count("draw_rejected")
-        per = {}
-        for fl in info:
-            per.setdefault(classify(case, fl, d), []).append(fl)
-        for mech, fls in per.items():
-            run.violation("draw-rejected-by-own-schema",
-                          dict(brief, draw=show(d), failures=fls), mech)
+        run.count(P + "draw_rejected")
+        report(run, "draw-rejected-by-own-schema", case, brief, d, verdict, info, verbose)
+    run.count(P + ("cases_all_draws_accepted" if not bad_case else "cases_with_rejected_draw"))
+
+
+def report(run, kind, case, brief, d, verdict, info, verbose):
+    """one violation per mechanism seen in this rejected draw"""
+    if verdict == "exc":
+        mech = classify_exc(case, info, d)
+        run.violation("validate-raised-on-own-draw" if kind.startswith("draw") else kind,
+                      dict(brief, draw=show(d), exc=repr(info)[:400]), mech)
         if verbose:
-            print("REJ", [(fl["schema_type"], fl["schema_name"], fl["reason"], fl["check"],
-                           fl["check_index"], fl["values"]) for fl in info])
-    run.count("cases_all_draws_accepted" if not bad_case else "cases_with_rejected_draw")
+            print("EXC", mech, repr(info)[:300])
+        return
+    per = {}
+    for fl in info:
+        per.setdefault(classify(case, fl, d), []).append(fl)
+    for mech, fls in per.items():
+        run.violation(kind, dict(brief, draw=show(d), failures=fls), mech)
+    if verbose:
+        print("REJECTED", show(d))
+        for mech, fls in per.items():
+            for fl in fls:
+                print("  ", mech, "|", fl["schema_type"], fl["schema_name"], fl["reason"],
+                      fl["check"], fl["check_index"], fl["values"])
 
 
 # --------------------------------------------------------------------------
 # driver
 # --------------------------------------------------------------------------
 def run(run, ctx):
-    n_cases, n_draws = N_CASES[ctx.tier], N_DRAWS[ctx.tier]
+    n_cases, n_draws, n_cold = N_CASES[ctx.tier], N_DRAWS[ctx.tier], N_COLD[ctx.tier]
     prewarm()
-    for i in ctx.cases(n_cases):
+    for i in ctx.cases(n_cases + n_cold):
         rng = ctx.rng(PID, i)
-        case = G.gen_case(rng)
-        one_case(run, case, rng.getrandbits(32), n_draws, limit=TIME_LIMIT[ctx.tier])
-    _pack(run)
+        if i < n_cases:
+            case = G.gen_case(rng)
+            one_case(run, case, rng.getrandbits(32), n_draws, limit=TIME_LIMIT[ctx.tier])
+        else:
+            case = G.gen_cold_case(rng, i - n_cases)
+            cold_case(run, case, rng.getrandbits(32), n_draws)
 
 
-def _pack(run):
-    pass
+def cold_case(run, case, hseed, n, verbose=False):
+    """run one case in a FRESH interpreter (nothing validated before the
+    strategy is built): pvm.c13_cold executes one_case(cold=True) there and
+    hands back its partial Run"""
+    import os
+    import subprocess
+    import sys
+    from .. import env
+    try:
+        p = subprocess.run(
+            [env.PY, "-m", "pvm.c13_cold"], cwd=env.VERIF, timeout=120,
+            input=json.dumps({"case": case, "hseed": hseed, "n": n, "verbose": verbose}),
+            capture_output=True, text=True, env=dict(os.environ))
+    except subprocess.TimeoutExpired:
+        run.count("cold:undecided:subprocess_timeout")
+        return
+    if p.returncode != 0:
+        run.count("cold:undecided:subprocess_failed")
+        run.note_inconclusive(f"cold subprocess failed: {p.stderr[-400:]}")
+        return
+    if verbose:
+        sys.stdout.write(p.stderr)
+    run.merge(json.loads(p.stdout.splitlines()[-1]))
 
 
 def _norm_msg(exc):
@@ -649,12 +713,17 @@ def finalize(run, ctx):
 
 
 def replay(path):
-    from ..run import Ctx
     with open(path) as f:
         w = json.load(f)["witness"]
     r = new_run()
-    one_case(r, w["case"], w["hseed"], w["n"], verbose=True)
+    case = {k: v for k, v in w["case"].items() if k != "cold_dispatcher_empty"}
+    if w.get("cold"):
+        cold_case(r, case, w["hseed"], w["n"], verbose=True)
+    else:
+        prewarm()
+        one_case(r, case, w["hseed"], w["n"], verbose=True)
     for v in r.violations:
         print("mechanism:", v["mechanism"], "kind:", v["kind"])
-    print("counters:", dict(r.counters))
+    print("counters:", {k: v for k, v in r.counters.items()
+                        if not k.startswith(("gen:", "judged:", "cold:gen:", "cold:judged:"))})
     return 1 if r.violations else 0
